@@ -2151,6 +2151,9 @@ func newAsPathPrependActionFromApiStruct(a *api.AsPrependAction) (*table.AsPathP
 	if a == nil {
 		return nil, nil
 	}
+	if a.Repeat > math.MaxUint8 {
+		return nil, fmt.Errorf("invalid as-prepend repeat: %d (maximum %d)", a.Repeat, math.MaxUint8)
+	}
 	return table.NewAsPathPrependAction(oc.SetAsPathPrepend{
 		RepeatN: uint8(a.Repeat),
 		As: func() string {
